@@ -80,6 +80,12 @@ def cases(draw, hazard):
                 body = body.replace(';', ',')
             pb = ['parenbody', body, True, {'gap': ' ', 'region': True}]
             laid[i + 1:j] = [inner[0], pb, [inner[-1][0], inner[-1][1], True, dict(inner[-1][3], gap=' ')]]
+    # a single-quoted literal whose body ends in a backslash: behind it `\\'` could be an escaped quote, but when no later
+    # quote exists in the script the only reading is a complete literal (the lexer rule reaches it by backing off)
+    quoted = [i for i, l in enumerate(laid) if "'" in l[1]]
+    if quoted and laid[quoted[-1]][0] == 'str' and laid[quoted[-1]][1][:1] == "'" and draw(st.integers(0, 3)) == 0:
+        l = laid[quoted[-1]]
+        laid[quoted[-1]] = [l[0], l[1][:-1] + draw(st.sampled_from(['\\', ';\\', 'a;b\\', ' ; x\\\\\\', 'C:\\bin;D:\\'])) + "'", l[2], dict(l[3], region=True, bs_end=True)]
     tail = draw(st.sampled_from(['', '', ' ', '\n', ' \n\t ', ' -- tail ; x', ' --\n', '  -- c;\n ']))
     lead = draw(st.sampled_from(['', '', ' ', '\n', '\t\n ']))
     return {'lex': laid, 'tail': tail, 'lead': lead}
@@ -112,7 +118,7 @@ def check(case):
     res.nontrivial = k >= 2 and region_semis >= 1
     res.labels = ['k=%d' % k, 'regions-with-semicolon'] * 1 if region_semis else ['k=%d' % k]
     res.labels += ['replaced-region'] * any(l[3].get('region') for l in clean) + ['paren-body'] * any(l[0] == 'parenbody' for l in clean) + \
-        ['dollar'] * any(l[0] == 'str' and l[1][0] == '$' for l in clean) + ['tail-comment'] * ('--' in case.get('tail', '')) + ['hazard:' + HAZ] * hazard
+        ['dollar'] * any(l[0] == 'str' and l[1][0] == '$' for l in clean) + ['tail-comment'] * ('--' in case.get('tail', '')) + ['literal-ends-in-backslash'] * any(l[3].get('bs_end') for l in clean) + ['hazard:' + HAZ] * hazard
     res.sample = {'text': text[:300], 'k': k}
     return res
 
